@@ -235,6 +235,29 @@ def check_cells(db, chk):
     reads_id = any(isinstance(e, dict) and e.get("f") == "id" for k in fam for _, _, s in k.cfg.stmts()
                    for p in ([s.get("lhs")] + [(s.get("rv") or {}).get("place")]) if p for e in p)
     chk.ob("ARMS-memwal", "same-memwal-by-id", reads_id, "the same-MemWAL helper compares MemWal ids: %s" % reads_id, h.loc())
+    # ... and nothing else: "the same MemWAL" is the same (region, generation).  Any other field of the two entries in the test
+    # (owner, state, locations) narrows the conflict and lets two changes of one generation both commit
+    adt = next((a for k_, a in db.adts.items() if k_.endswith("mem_wal::MemWal")), None)
+    if adt is None:
+        raise AnchorMissing("MemWal struct not found")
+    others = {x["name"] for x in adt["variants"][0]["fields"]} - {"id"}
+
+    def walk(x, out):
+        if isinstance(x, dict):
+            if x.get("f") in others:
+                out.add(x["f"])
+            for v in x.values():
+                walk(v, out)
+        elif isinstance(x, list):
+            for v in x:
+                walk(v, out)
+    extra = set()
+    for k in fam:
+        if k.focus:
+            walk(k.blocks, extra)
+    chk.ob("ARMS-memwal", "same-memwal-by-id-only", not extra,
+           "the same-MemWAL helper reads %s" % ("only the id of the two entries" if not extra else "also %s of the two entries: a conflict that "
+                                                "depends on it lets two concurrent changes of one generation both commit" % sorted(extra)), h.loc())
 
 
 def run(db, chk):
